@@ -39,8 +39,8 @@ Public operations NOT covered by a field (no Lean statement here):
   * `copy()` of every class — the result is built from the reported constructor parameters and
     is the same definition (C18: `C18_copy_roundtrip`; abstractly `C19_results_valid_partial`);
   * DPDA, NPDA, DTM, NTM, MNTM have no automaton-valued operation besides `copy`;
-  * `GNFA.to_regex`, `DFA/NFA.to_regex`-style results are strings (C12), `DFA.successors`,
-    `predecessor`, `random_word`, … return words, `show_diagram` returns a graph;
+  * `GNFA.to_regex` returns a string (C12); `DFA.successor(s)`, `predecessor(s)`, `random_word`,
+    `words_of_length`, … return words; `show_diagram` returns a graph;
   * `NFA.from_regex` on strings outside the documented token language, and operations called
     with arguments for which the cited theorem has no success case (they raise — no result);
   * DFA operands that violate `PyShape` cannot arise from Python values (sets / dicts).
@@ -167,6 +167,10 @@ structure ResultsValid : Prop where
   dfa_from_nfa_min : ∀ {σ α : Type} [DecidableEq σ] [DecidableEq α] (n : NFA σ α)
     (pick : List Nat → Nat), n.validate = .ok () → n.PyShape →
     (n.toDFAMin pick).validate = .ok ()
+  /-- `DFA.from_nfa(n)` with the defaults `retain_names=False, minify=True`. -/
+  dfa_from_nfa_min_renumbered : ∀ {σ α : Type} [DecidableEq σ] [DecidableEq α] (n : NFA σ α)
+    (pick : List Nat → Nat), n.validate = .ok () → n.PyShape →
+    (n.toDFAMin pick).renumber.validate = .ok ()
   /-- `NFA.from_dfa(d)`. -/
   nfa_from_dfa : ∀ {σ α : Type} [DecidableEq σ] [DecidableEq α] (d : DFA σ α),
     d.validate = .ok () → (NFA.ofDFA d).validate = .ok ()
@@ -336,6 +340,9 @@ theorem C19_results_valid : ResultsValid where
   dfa_from_nfa := fun n hv => C07.C07_from_nfa_valid n hv
   dfa_from_nfa_renumbered := fun n hv ps => (C07.C07_from_nfa_renumbered n hv ps).1
   dfa_from_nfa_min := fun n pick hv ps => (C07.C07_from_nfa_min n hv ps pick).1
+  dfa_from_nfa_min_renumbered := fun n pick hv ps =>
+    renumber_valid _ (C07.C07_from_nfa_min n hv ps pick).1 (C07.C07_from_nfa_min_pyShape n hv ps pick)
+      (C04.minifyCore_keys _ _ _ _ _ _)
   nfa_from_dfa := fun d hv => C07.C07_from_dfa_valid d hv
   nfa_eliminate_lambda := fun n hv ps => C07.C07_elim_valid n hv ps
   nfa_union := fun A B hA hB => ofC08 (C08.C08_union A B hA hB)
